@@ -307,6 +307,194 @@ fn run_split(data: &[u8]) -> Result<(), (String, String, String)> {
 }
 
 // ---------------------------------------------------------------------------
+// long lines, many lines, large records: sizes around the powers of two a buffered reader or writer may use
+// ---------------------------------------------------------------------------
+
+const LONG_LENGTHS: [usize; 31] = [126, 127, 128, 129, 254, 255, 256, 257, 258, 510, 511, 512, 513, 1022, 1023, 1024, 1025, 2047, 2048, 4095, 4096, 4097, 8190, 8191, 8192, 8193, 16383, 16384, 16385, 65535, 65536];
+const LONG_ENDS: [&[u8]; 3] = [b"\r\n", b"\n", b"\r"];
+const LONG_VARIANTS: usize = 6;
+
+/// position-dependent letters: a shifted or dropped byte changes the string
+fn pattern(n: usize, salt: usize) -> Vec<u8> {
+    (0..n).map(|i| b'a' + ((i * 7 + i / 26 + salt) % 26) as u8).collect()
+}
+
+fn long_total() -> u64 {
+    (LONG_LENGTHS.len() * LONG_ENDS.len() * LONG_VARIANTS) as u64
+}
+
+/// The bytes of long-input case `idx`.
+fn long_data(idx: u64) -> (Vec<u8>, String) {
+    let idx = idx as usize;
+    let v = idx % LONG_VARIANTS;
+    let e = LONG_ENDS[(idx / LONG_VARIANTS) % LONG_ENDS.len()];
+    let l = LONG_LENGTHS[idx / LONG_VARIANTS / LONG_ENDS.len()];
+    let mut d = vec![];
+    let what = match v {
+        0 => {
+            d.extend(pattern(l, 0));
+            d.extend(e);
+            d.extend(b"second");
+            d.extend(e);
+            d.extend(b"third,4");
+            d.extend(e);
+            "a line of that length, then two short lines"
+        }
+        1 => {
+            d.extend(b"x");
+            d.extend(e);
+            d.extend(pattern(l, 3));
+            d.extend(e);
+            d.extend(b"last");
+            d.extend(e);
+            "a short line, then a line of that length"
+        }
+        2 => {
+            d.extend(pattern(l, 5));
+            d.extend(b",b");
+            d.extend(e);
+            d.extend(b"c,d");
+            d.extend(e);
+            "a field of that length followed by a comma"
+        }
+        3 => {
+            d.extend(pattern(l, 1));
+            d.extend(e);
+            d.extend(pattern(l, 2));
+            d.extend(e);
+            "two lines of that length"
+        }
+        4 => {
+            d.extend(b"  ");
+            d.extend(pattern(l - 2, 4));
+            d.extend(b" ,  z");
+            d.extend(e);
+            d.extend(b"w");
+            d.extend(e);
+            "blanks around a field that fills the line up to that length"
+        }
+        _ => {
+            // the line end itself straddles the position: the line is one character shorter
+            d.extend(pattern(l - 1, 6));
+            d.extend(e);
+            d.extend(b"after");
+            "a line one character shorter (its line end sits at that position), last line without a line end"
+        }
+    };
+    (d, format!("length {} with line end {:?}: {}", l, latin1(e), what))
+}
+
+struct TextCase {
+    label: String,
+    text: String,
+    want_stdout: Vec<u8>,
+    /// expected content of files after the run
+    want_files: Vec<(String, Vec<u8>)>,
+    budget: u64,
+}
+
+fn text_cases() -> Vec<TextCase> {
+    let mut out = vec![];
+    let rep = "R$ = \"abcdefghijklmnopqrstuvwxyz0123456789\"\nWHILE LEN(R$) < 40000\nR$ = R$ + R$\nWEND\n";
+    let rep_bytes: Vec<u8> = {
+        let mut r = b"abcdefghijklmnopqrstuvwxyz0123456789".to_vec();
+        while r.len() < 40000 {
+            let c = r.clone();
+            r.extend(c);
+        }
+        r
+    };
+    // (a) one long string written with PRINT # and read back with LINE INPUT #
+    for l in [255usize, 256, 257, 1023, 1024, 1025, 4096, 8191, 8192, 8193, 16384, 32767] {
+        let text = format!(
+            "{rep}A$ = MID$(R$, 3, {l})\nOPEN \"f.txt\" FOR OUTPUT AS #1\nPRINT #1, A$\nPRINT #1, \"tail\"\nCLOSE #1\nOPEN \"f.txt\" FOR INPUT AS #1\nLINE INPUT #1, B$\nLINE INPUT #1, C$\nPRINT LEN(B$); B$ = A$; C$; EOF(1)\nCLOSE #1\n"
+        );
+        let mut file = rep_bytes[2..2 + l].to_vec();
+        file.extend(b"\r\ntail\r\n");
+        out.push(TextCase { label: format!("one string of {} characters through PRINT # / LINE INPUT #", l), text, want_stdout: format!(" {} -1 tail-1 \r\n", l).into_bytes(), want_files: vec![("f.txt".into(), file)], budget: 3_000_000 });
+    }
+    // (b) many lines, appended in two sessions, read back by LINE INPUT # under WHILE NOT EOF and by INPUT #
+    for n in [10usize, 100, 300, 1000, 3000] {
+        let half = n / 2;
+        let text = format!(
+            "OPEN \"m.txt\" FOR OUTPUT AS #1\nFOR I% = 1 TO {half}\nPRINT #1, \"line\"; I%\nNEXT\nCLOSE #1\nOPEN \"m.txt\" FOR APPEND AS #1\nFOR I% = {h1} TO {n}\nPRINT #1, \"line\"; I%\nNEXT\nCLOSE #1\nOPEN \"m.txt\" FOR INPUT AS #2\nC% = 0\nBAD% = 0\nWHILE NOT EOF(2)\nLINE INPUT #2, L$\nC% = C% + 1\nIF L$ <> \"line\" + STR$(C%) + \" \" THEN BAD% = BAD% + 1\nWEND\nCLOSE #2\nPRINT C%; BAD%; L$\n",
+            half = half,
+            h1 = half + 1,
+            n = n
+        );
+        let mut file = vec![];
+        for i in 1..=n {
+            file.extend(format!("line {} \r\n", i).into_bytes());
+        }
+        out.push(TextCase { label: format!("{} lines written in two sessions (OUTPUT, APPEND), read back under WHILE NOT EOF", n), text, want_stdout: format!(" {}  0 line {} \r\n", n, n).into_bytes(), want_files: vec![("m.txt".into(), file)], budget: 3_000_000 });
+        let text = format!(
+            "OPEN \"n.txt\" FOR OUTPUT AS #1\nFOR I% = 1 TO {n}\nPRINT #1, I%; \",\"; -I%\nNEXT\nCLOSE #1\nOPEN \"n.txt\" FOR INPUT AS #1\nS& = 0\nT& = 0\nC% = 0\nWHILE NOT EOF(1)\nINPUT #1, V%, W%\nS& = S& + V%\nT& = T& + W%\nC% = C% + 1\nWEND\nCLOSE #1\nPRINT C%; S&; T&\n",
+            n = n
+        );
+        let sum = (n * (n + 1) / 2) as i64;
+        out.push(TextCase { label: format!("{} lines of two numbers read back by INPUT # under WHILE NOT EOF", n), text, want_stdout: format!(" {}  {} -{} \r\n", n, sum, sum).into_bytes(), want_files: vec![], budget: 3_000_000 });
+    }
+    // (c) RANDOM files: record lengths around 128 / 256 / 512 / 1024, 40 records written upwards, read downwards,
+    // one in the middle overwritten
+    for len in [16usize, 127, 128, 129, 255, 256, 257, 512, 1000, 1024] {
+        let n = 40usize;
+        let text = format!(
+            "{rep}OPEN \"r.dat\" FOR RANDOM AS #1 LEN = {len}\nFIELD #1, {len} AS F$\nFOR I% = 1 TO {n}\nLSET F$ = MID$(R$, I%, {len})\nPUT #1, I%\nNEXT\nBAD% = 0\nFOR I% = {n} TO 1 STEP -1\nGET #1, I%\nIF F$ <> MID$(R$, I%, {len}) THEN BAD% = BAD% + 1\nNEXT\nLSET F$ = MID$(R$, 7, {len})\nPUT #1, 20\nGET #1, 19\nA% = F$ = MID$(R$, 19, {len})\nGET #1, 21\nB% = F$ = MID$(R$, 21, {len})\nGET #1, 20\nC% = F$ = MID$(R$, 7, {len})\nCLOSE #1\nPRINT BAD%; A%; B%; C%\n",
+            rep = rep,
+            len = len,
+            n = n
+        );
+        let mut file = vec![];
+        for i in 1..=n {
+            let start = if i == 20 { 6 } else { i - 1 };
+            file.extend(&rep_bytes[start..start + len]);
+        }
+        out.push(TextCase { label: format!("RANDOM file with records of {} bytes: {} records up, read down, one overwritten", len, n), text, want_stdout: b" 0 -1 -1 -1 \r\n".to_vec(), want_files: vec![("r.dat".into(), file)], budget: 3_000_000 });
+    }
+    // (d) two files interleaved, each line longer than the last
+    {
+        let text = format!(
+            "{rep}OPEN \"a.txt\" FOR OUTPUT AS #1\nOPEN \"b.txt\" FOR OUTPUT AS #2\nFOR I% = 1 TO 60\nPRINT #1, LEFT$(R$, I% * 9)\nPRINT #2, MID$(R$, 2, I% * 11);\nPRINT #2, \"\"\nNEXT\nCLOSE\nOPEN \"b.txt\" FOR INPUT AS #1\nOPEN \"a.txt\" FOR INPUT AS #2\nBAD% = 0\nFOR I% = 1 TO 60\nLINE INPUT #2, X$\nLINE INPUT #1, Y$\nIF X$ <> LEFT$(R$, I% * 9) THEN BAD% = BAD% + 1\nIF Y$ <> MID$(R$, 2, I% * 11) THEN BAD% = BAD% + 1\nNEXT\nPRINT BAD%; EOF(1); EOF(2)\nCLOSE\n",
+            rep = rep
+        );
+        let mut fa = vec![];
+        let mut fb = vec![];
+        for i in 1..=60usize {
+            fa.extend(&rep_bytes[..i * 9]);
+            fa.extend(b"\r\n");
+            fb.extend(&rep_bytes[1..1 + i * 11]);
+            fb.extend(b"\r\n");
+        }
+        out.push(TextCase { label: "two files written and read interleaved, 60 lines of growing length each".into(), text, want_stdout: b" 0 -1 -1 \r\n".to_vec(), want_files: vec![("a.txt".into(), fa), ("b.txt".into(), fb)], budget: 3_000_000 });
+    }
+    out
+}
+
+fn run_text_case(c: &TextCase) -> Result<(), (String, String, String)> {
+    let opts = RunOpts { budget: c.budget, collect_files: true, ..RunOpts::default() };
+    let o = run_pipeline(&c.text, &opts);
+    if !matches!(o.end, End::Normal) {
+        return Err(("end".into(), format!("{}: expected a normal end, got {}", c.label, o.end.class()), c.text.clone()));
+    }
+    if o.stdout != c.want_stdout {
+        return Err(("stdout".into(), format!("{}: expected {:?}, got {:?}", c.label, latin1(&c.want_stdout), super::truncate_text(&o.stdout_str(), 300)), c.text.clone()));
+    }
+    for (name, want) in &c.want_files {
+        match o.files.get(name) {
+            None => return Err(("file-missing".into(), format!("{}: {} should exist", c.label, name), c.text.clone())),
+            Some(g) => {
+                let got = vcore::outcome::unlatin1(g);
+                if &got != want {
+                    let at = got.iter().zip(want.iter()).position(|(a, b)| a != b).unwrap_or(got.len().min(want.len()));
+                    return Err(("file-content".into(), format!("{}: {} has {} bytes, expected {}; first difference at offset {}", c.label, name, got.len(), want.len(), at), c.text.clone()));
+                }
+            }
+        }
+    }
+    Ok(())
+}
+
+// ---------------------------------------------------------------------------
 
 pub fn worker(case: &Value) -> Value {
     let g = case["g"].as_str().unwrap_or("");
@@ -325,6 +513,42 @@ pub fn worker(case: &Value) -> Value {
                     *hist.entry("differ".into()).or_insert(0) += 1;
                     if bads.len() < 30 {
                         bads.push(json!({"sig": format!("C18|split|{}", class), "summary": msg, "text": text, "case": {"g": "split", "max": max, "lo": idx, "hi": idx + 1}}));
+                    }
+                }
+            }
+        }
+        return json!({"n": n, "nontrivial": n, "hist": hist, "bad": bads, "sample": sample});
+    }
+    if g == "long" {
+        for idx in case["lo"].as_u64().unwrap_or(0)..case["hi"].as_u64().unwrap_or(0) {
+            let (data, label) = long_data(idx);
+            n += 1;
+            match run_split(&data) {
+                Ok(()) => *hist.entry("agree".into()).or_insert(0) += 1,
+                Err((class, msg, text)) => {
+                    *hist.entry("differ".into()).or_insert(0) += 1;
+                    if bads.len() < 30 {
+                        bads.push(json!({"sig": format!("C18|long|{}", class), "summary": format!("{} — {}", label, super::truncate_text(&msg, 400)), "text": text, "case": {"g": "long", "lo": idx, "hi": idx + 1}}));
+                    }
+                }
+            }
+        }
+        return json!({"n": n, "nontrivial": n, "hist": hist, "bad": bads, "sample": sample});
+    }
+    if g == "sizes" {
+        let all = text_cases();
+        for idx in case["lo"].as_u64().unwrap_or(0)..case["hi"].as_u64().unwrap_or(0) {
+            let Some(c) = all.get(idx as usize) else { continue };
+            n += 1;
+            if sample.is_null() {
+                sample = json!({"group": "sizes", "label": c.label, "text": c.text});
+            }
+            match run_text_case(c) {
+                Ok(()) => *hist.entry("agree".into()).or_insert(0) += 1,
+                Err((class, msg, text)) => {
+                    *hist.entry("differ".into()).or_insert(0) += 1;
+                    if bads.len() < 30 {
+                        bads.push(json!({"sig": format!("C18|sizes|{}|{}", class, c.label.split(':').next().unwrap_or("").chars().filter(|ch| !ch.is_ascii_digit()).collect::<String>()), "summary": msg, "text": text, "case": {"g": "sizes", "lo": idx, "hi": idx + 1}}));
                     }
                 }
             }
@@ -456,6 +680,19 @@ pub fn drive(tier: &str) -> i32 {
         cases.push(json!({"g": "split", "max": max, "lo": lo, "hi": (lo + 100).min(total)}));
         lo += 100;
     }
+    // sizes around buffer boundaries
+    let lt = long_total();
+    plan.push(json!({"group": "long", "lengths": LONG_LENGTHS.to_vec(), "line_ends": 3, "variants": LONG_VARIANTS, "inputs": lt, "forms": 4}));
+    let mut lo = 0;
+    while lo < lt {
+        cases.push(json!({"g": "long", "lo": lo, "hi": (lo + 6).min(lt)}));
+        lo += 6;
+    }
+    let st = text_cases().len() as u64;
+    plan.push(json!({"group": "sizes", "programs": st}));
+    for i in 0..st {
+        cases.push(json!({"g": "sizes", "lo": i, "hi": i + 1}));
+    }
     let total_cases = cases.len();
     let cap = run.wall_cap_s;
     let t0 = run.reporter.start;
@@ -465,7 +702,7 @@ pub fn drive(tier: &str) -> i32 {
         run.capped = true;
     }
     let mut ev = Evidence::new("model_checking");
-    ev.set("rule", "alphabet: for handles 1 and 2 — OPEN of {a.txt, b.txt, pre.txt (exists, two lines), nodir/x.txt (cannot be created)} FOR INPUT / OUTPUT / APPEND, OPEN FOR RANDOM LEN=4 + FIELD, PRINT # of 5 items (one with a comma, a number, one without line end, one with a character above 127), LINE INPUT #, INPUT # of one string / two strings / an INTEGER, PRINT EOF, CLOSE #h, LSET + PUT of 3 values to records 1-2, GET of records 1-2 — plus CLOSE, KILL of each name, NAME a->b, b->a, pre->b (74 operations). tree: every history of length <= 3 (thorough 4) whose prefix succeeds in the model, including the failing last operation. trap: histories of length <= 2 (thorough 3) with up to two failing operations inside, run under ON ERROR GOTO + RESUME NEXT. bfs: breadth-first search over model states (store contents, handle table with read positions), every (state, operation) transition replayed after the shortest history reaching the state. split: every byte string up to length 4 (thorough 6) over {a , blank CR LF CHR$(160)} read by INPUT #, console INPUT, LINE INPUT #, console LINE INPUT. Oracle: the printed trace, the end (normal, or the error code at the row of the failing statement; 'a file error' = any code in 50..76 where the property names no number), and the bytes of every file afterwards.");
+    ev.set("rule", "alphabet: for handles 1 and 2 — OPEN of {a.txt, b.txt, pre.txt (exists, two lines), nodir/x.txt (cannot be created)} FOR INPUT / OUTPUT / APPEND, OPEN FOR RANDOM LEN=4 + FIELD, PRINT # of 5 items (one with a comma, a number, one without line end, one with a character above 127), LINE INPUT #, INPUT # of one string / two strings / an INTEGER, PRINT EOF, CLOSE #h, LSET + PUT of 3 values to records 1-2, GET of records 1-2 — plus CLOSE, KILL of each name, NAME a->b, b->a, pre->b (74 operations). tree: every history of length <= 3 (thorough 4) whose prefix succeeds in the model, including the failing last operation. trap: histories of length <= 2 (thorough 3) with up to two failing operations inside, run under ON ERROR GOTO + RESUME NEXT. bfs: breadth-first search over model states (store contents, handle table with read positions), every (state, operation) transition replayed after the shortest history reaching the state. split: every byte string up to length 4 (thorough 6) over {a , blank CR LF CHR$(160)} read by INPUT #, console INPUT, LINE INPUT #, console LINE INPUT. long: the same four forms on inputs whose lines / fields have 126 .. 65536 characters (every length within one or two of 128, 256, 512, 1024, 2048, 4096, 8192, 16384, 65536) x three line-end conventions x 6 arrangements (long line first / second / twice, a long field before a comma, blanks around a field, the line end itself at the boundary and no final line end). sizes: strings of 255 .. 32767 characters through PRINT # / LINE INPUT #, 10 .. 3000 lines written in two sessions (OUTPUT then APPEND) and read back under WHILE NOT EOF by LINE INPUT # and INPUT #, RANDOM files with 40 records of 16 .. 1024 bytes written upwards, read downwards, one overwritten, two files written and read interleaved; file bytes compared with the expected content. Oracle: the printed trace, the end (normal, or the error code at the row of the failing statement; 'a file error' = any code in 50..76 where the property names no number), and the bytes of every file afterwards.");
     ev.set("exhaustive", !run.capped);
     ev.set("plan", json!(plan));
     ev.set("states", states as u64);
